@@ -28,13 +28,27 @@
 
 static volatile sig_atomic_t ticks = 0;
 static volatile sig_atomic_t want_suspend = 0;
-static int tick_limit = 4000;  /* 4000 * 5 ms = 20 s per input: a hang */
+static int tick_limit = 4000;  /* 4000 * 5 ms = 20 s of CPU TIME per input: a hang.  The ticks come from ITIMER_PROF (CPU time of
+                                * this process), not from the wall clock: on a loaded machine an input that needs 50 ms of CPU may
+                                * take a minute of wall time, which is not a finding.  A second, coarse wall-clock watchdog
+                                * (wall_limit seconds per input) catches an input that blocks without using CPU. */
+static volatile sig_atomic_t wall_ticks = 0;
+static int wall_limit = 900;
 
 /* PEG matching has no interrupt point and valid PEG bytecode can take exponential time (or capture without bound): a single
  * peg call gets a time budget and is abandoned with siglongjmp when it is used up - that is not a finding */
 static sigjmp_buf peg_jmp;
 static volatile sig_atomic_t peg_armed = 0, peg_ticks = 0;
 static long n_peg_timeouts = 0;
+
+static void on_wall_tick(int sig) {
+    (void) sig;
+    if (++wall_ticks > wall_limit) {
+        static const char msg[] = "\nHANG: input exceeded the wall-clock limit without using its CPU budget\n";
+        (void) !write(2, msg, sizeof msg - 1);
+        _exit(97);
+    }
+}
 
 static void on_tick(int sig) {
     (void) sig;
@@ -355,10 +369,16 @@ static void exercise_peg(Janet peg) {
                 if (which == 2 && peg_replace_cfun) GUARDED({ Janet r = peg_replace_cfun(3, a2); mix((uint32_t) janet_type(r)); });
                 peg_armed = 0;
             } else {
-                janet_restore(&snap);
+                /* The call was abandoned by siglongjmp out of the tick handler, possibly in the middle of realloc / of an
+                 * array update inside peg_rule: the heap of this process can no longer be trusted (a later collection would
+                 * free a capture array twice).  Answer for this input, then restart the process: exit status 96 with the
+                 * marker below tells checks/C10.py to continue with the next input - this is not a finding. */
                 n_peg_timeouts++;
-                ticks = 0;
-                return;   /* this program is slow: one abandoned call is enough */
+                printf("ok peg-budget\n");
+                fflush(stdout);
+                static const char msg[] = "\nPEG-BUDGET-RESTART\n";
+                (void) !write(2, msg, sizeof msg - 1);
+                _exit(96);
             }
         }
     }
@@ -648,11 +668,20 @@ int main(int argc, char **argv) {
     memset(&sa, 0, sizeof sa);
     sa.sa_handler = on_tick;
     sa.sa_flags = SA_RESTART;   /* the tick must not make getline() on stdin fail with EINTR */
-    sigaction(SIGALRM, &sa, NULL);
+    sigaction(SIGPROF, &sa, NULL);
     struct itimerval it;
     it.it_interval.tv_sec = 0; it.it_interval.tv_usec = 5000;
     it.it_value = it.it_interval;
-    setitimer(ITIMER_REAL, &it, NULL);
+    setitimer(ITIMER_PROF, &it, NULL);      /* CPU time (user + system) of this process */
+    struct sigaction sw;
+    memset(&sw, 0, sizeof sw);
+    sw.sa_handler = on_wall_tick;
+    sw.sa_flags = SA_RESTART;
+    sigaction(SIGALRM, &sw, NULL);
+    struct itimerval iw;
+    iw.it_interval.tv_sec = 1; iw.it_interval.tv_usec = 0;
+    iw.it_value = iw.it_interval;
+    setitimer(ITIMER_REAL, &iw, NULL);
 
     char *line = NULL; size_t cap = 0; ssize_t n;
     for (;;) {
@@ -681,6 +710,7 @@ int main(int argc, char **argv) {
             bytes[i] = (uint8_t)(a * 16 + b);
         }
         ticks = 0;
+        wall_ticks = 0;
         n_inputs++;
         if (bad) printf("bad-op\n");
         else {
